@@ -140,25 +140,70 @@ fn run(case: &Val) -> Val {
         let pc = pc.l();
         write_file(&pc[0].str(), pc[1].s());
     }
+    // Two things a case does not say and that must not matter (they change with every case of a process):
+    //  - the roller in use is the one returned by build(), or a CLONE of it (original dropped, or kept alive);
+    //  - the log file's name is the case's, or that name with the byte 0xE9 appended - a name that is not valid
+    //    UTF-8, as a Latin-1 file name on a Unix system is (the listing maps it back to the case's name).
+    static TURN: std::sync::atomic::AtomicUsize = std::sync::atomic::AtomicUsize::new(0);
+    let turn = TURN.fetch_add(1, std::sync::atomic::Ordering::SeqCst);
+    let mut _original: Option<FixedWindowRoller> = None;
     let roller: Box<dyn Roll> = if kind == 0 {
         match FixedWindowRoller::builder()
             .base(u32::try_from(base).expect("base is a u32"))
             .build(&pattern, u32::try_from(count).expect("count is a u32"))
         {
-            Ok(r) => Box::new(r),
+            Ok(r) => match turn % 4 {
+                1 => Box::new(r.clone()),
+                3 => {
+                    let cl = r.clone();
+                    _original = Some(r);
+                    Box::new(cl)
+                }
+                _ => Box::new(r),
+            },
             Err(_) => return Val::err(1),
         }
     } else {
         Box::new(DeleteRoller::new())
     };
+    let odd_name = turn % 3 == 2;
+    let actual: std::path::PathBuf = if odd_name {
+        use std::os::unix::ffi::OsStringExt;
+        let mut b = file.clone().into_bytes();
+        b.push(0xe9);
+        std::ffi::OsString::from_vec(b).into()
+    } else {
+        std::path::PathBuf::from(&file)
+    };
+    let lossy = actual.to_string_lossy().into_owned();
+    if odd_name && Path::new(&file).is_file() {
+        std::fs::rename(&file, &actual).expect("pre-populated log file under its odd name");
+    }
     let mut out = vec![];
     for op in c[8].l() {
         let op = op.l();
         if op[0].n() != 0 {
-            write_file(&file, op[1].s());
+            if odd_name {
+                if let Some(parent) = actual.parent() {
+                    if !parent.as_os_str().is_empty() {
+                        std::fs::create_dir_all(parent).expect("mkdir");
+                    }
+                }
+                std::fs::write(&actual, op[1].s()).expect("write log file");
+            } else {
+                write_file(&file, op[1].s());
+            }
         }
-        let r = silenced(|| roller.roll(Path::new(&file)));
-        let l = listing(&root);
+        let r = silenced(|| roller.roll(&actual));
+        let mut l = listing(&root);
+        if odd_name {
+            for e in l.iter_mut() {
+                if e.0 == lossy {
+                    e.0 = file.clone();
+                }
+            }
+            l.sort();
+        }
         out.push(Val::L(vec![Val::N(r.is_err() as u128), listing_val(&l)]));
     }
     drop(scope);
